@@ -525,6 +525,11 @@ func (e *inEnv) readOnlyAttempts() {
 				e.viol(fmt.Sprintf("%s: %s on the child at position %d (inlined=%v) obtained from a read-only iterator failed with %s (%s), want ReadOnlyIteratorElementMutation:Fatal", kind, name, i, inl, k, errLine(err)))
 				return false, nil
 			}
+			// ... naming the element that was mutated and the container whose iterator handed it out (C18)
+			if d := roErrNames(err, v, pa, pm); d != "" {
+				e.viol(fmt.Sprintf("%s: %s on the child at position %d obtained from a read-only iterator was refused, but %s", kind, name, i, d))
+				return false, nil
+			}
 			if inl {
 				e.st.Hit("nestro:refused:inlined-child")
 			} else {
